@@ -164,7 +164,7 @@ fn fips_keccak_f(a: &mut [[u64; 5]; 5]) {
         ir += 1;
     }
 }
-// @harness props=C01 kind=full tier=thorough timeout=3000
+// @attempt (not run in any tier: verified once, standalone, in 32 min with kani-driver peaking near 60 GB; inside the thorough batch the driver is OOM-killed) props=C01 kind=full tier=thorough timeout=3000
 #[kani::proof]
 #[kani::unwind(256)]
 fn keccak_f_matches_fips202() {
